@@ -15,6 +15,7 @@ def sh(cmd, cwd=None):
 
 
 def main():
+    only = sys.argv[1] if len(sys.argv) > 1 else None
     rc, out = sh("git -C /repo status --porcelain")
     if out.strip():
         print("/repo is not clean")
@@ -25,7 +26,7 @@ def main():
     for d in sorted(os.listdir(os.path.join(VERIF, "seeded"))):
         p = os.path.join(VERIF, "seeded", d)
         patch = os.path.join(p, "patch.diff")
-        if not os.path.exists(patch):
+        if not os.path.exists(patch) or (only and only not in d):
             continue
         prop = d.split("-")[0]
         rc, out = sh("git -C /repo apply %s" % patch)
